@@ -1,4 +1,5 @@
 import BnpVerif.Model.C19
+import BnpVerif.Gen.C19
 /-! C19 property theorems. Helper lemmas are interleaved; the property theorems are the ones listed
 in `Audit/C19.lean`. All statements are for tables of any number of rows / columns and any cell type. -/
 set_option linter.unusedSectionVars false
@@ -577,5 +578,195 @@ example : ∃ r, sortBy (fun (x : Int) => x) 0 [[3, 1, 2], [10, 20, 30]] = some 
 example : run [.mask [true, true, false], .concat [[7], [70]], .take [2, 0, 1], .replace 0 [0, 0, 0]]
     [[3, 1, 2], [30, 10, 20]] = some [[0, 0, 0], [70, 30, 10]] := by decide
 example : replaceCol 1 [5] [[1, 2, 3], [10, 20, 30]] = none := by decide
+
+/-! ### typed construction: the tabulated dispatch converts or raises -/
+
+/-- **construction converts each column to its declared type or raises** — checked by the kernel over the
+whole dispatch table re-extracted from the running code on every run (every field kind × every argument
+form), except for the explicitly listed cells of the recorded findings (`knownUnconverted`). -/
+theorem construct_converts_or_raises : Gen.C19.constructTable.all constructCellOK = true := by decide +kernel
+
+/-- the table covers every field kind × every argument form it claims to (no cell silently missing) -/
+theorem construct_table_complete :
+    Gen.C19.constructTable.map (fun r => (r.1, r.2.1)) =
+      (["str", "sid", "int", "float", "bool", "opt", "li", "dna", "strand", "inner"].flatMap (fun k =>
+        ["list_str", "list_int", "list_float", "list_bool", "list_none", "nd_int", "nd_float", "nd_bool", "nd_str",
+         "encoded_ragged", "dna_ragged", "string_array", "ragged_int", "list_list_int", "table", "list_entries",
+         "series_str", "series_int", "strand_str"].map (fun f => (k, f)))) := by decide +kernel
+
+theorem takeWhile_all {β} (p : β → Bool) (l : List β) (h : ∀ x ∈ l, p x = true) : l.takeWhile p = l := by
+  induction l with
+  | nil => rfl
+  | cons a l ih => simp [List.takeWhile_cons, h a (by simp), ih (fun x hx => h x (by simp [hx]))]
+
+theorem dropWhile_all {β} (p : β → Bool) (l : List β) (h : ∀ x ∈ l, p x = true) : l.dropWhile p = [] := by
+  induction l with
+  | nil => rfl
+  | cons a l ih => simp [List.dropWhile_cons, h a (by simp), ih (fun x hx => h x (by simp [hx]))]
+
+theorem dotFree_ne (n : Name) (h : dotFree n) : ∀ x ∈ n, (x != dot) = true := by
+  intro x hx
+  simp only [bne_iff_ne, ne_eq]
+  intro e; subst e; exact h hx
+
+theorem firstComp_dotFree (n : Name) (h : dotFree n) : firstComp n = n :=
+  takeWhile_all _ n (dotFree_ne n h)
+
+theorem firstComp_join (n k : Name) (h : dotFree n) : firstComp (n ++ dot :: k) = n := by
+  unfold firstComp
+  rw [List.takeWhile_append]
+  have : n.takeWhile (· != dot) = n := firstComp_dotFree n h
+  simp [this]
+
+theorem split1_join (n k : Name) (h : dotFree n) : split1 (n ++ dot :: k) = some (n, k) := by
+  unfold split1
+  have hc : (n ++ dot :: k).contains dot = true := by simp
+  rw [if_pos hc]
+  have h1 := firstComp_join n k h
+  unfold firstComp at h1
+  rw [h1]
+  congr 2
+  rw [List.dropWhile_append]
+  have : n.dropWhile (· != dot) = [] := dropWhile_all _ n (dotFree_ne n h)
+  simp [this]
+
+theorem split1_fst (k : Name) (a b : Name) (h : split1 k = some (a, b)) : a = firstComp k := by
+  unfold split1 at h
+  split at h
+  · simp only [Option.some.injEq, Prod.mk.injEq] at h; exact h.1.symm
+  · simp at h
+
+theorem lookup_clean {α} (n : Name) (hn : dotFree n) (p q : List (Name × List α)) (hp : Clean n p) :
+    (p ++ q).lookup n = q.lookup n := by
+  induction p with
+  | nil => rfl
+  | cons kv p ih =>
+    have h1 : firstComp kv.1 ≠ n := hp kv (by simp)
+    have hne : (n == kv.1) = false := by
+      simp only [beq_eq_false_iff_ne, ne_eq]
+      intro e
+      rw [← e, firstComp_dotFree n hn] at h1
+      exact h1 rfl
+    obtain ⟨k, v⟩ := kv
+    simp only [List.cons_append, List.lookup_cons, hne]
+    exact ih (fun x hx => hp x (by simp [hx]))
+
+theorem subDict_clean {α} (n : Name) (p : List (Name × List α)) (hp : Clean n p) : subDict n p = [] := by
+  unfold subDict
+  rw [List.filterMap_eq_nil_iff]
+  intro kv hkv
+  have h1 := hp kv hkv
+  cases hs : split1 kv.1 with
+  | none => rfl
+  | some ab =>
+    obtain ⟨a, b⟩ := ab
+    have := split1_fst kv.1 a b hs
+    simp only
+    rw [if_neg]
+    rw [this]; exact h1
+
+theorem subDict_append {α} (n : Name) (p q : List (Name × List α)) : subDict n (p ++ q) = subDict n p ++ subDict n q := by
+  simp [subDict]
+
+theorem subDict_join {α} (n : Name) (hn : dotFree n) (d : List (Name × List α)) :
+    subDict n (d.map (fun kv => (n ++ dot :: kv.1, kv.2))) = d := by
+  induction d with
+  | nil => rfl
+  | cons kv d ih =>
+    simp only [subDict, List.map_cons, List.filterMap_cons, split1_join n kv.1 hn, ↓reduceIte] at ih ⊢
+    rw [ih]
+
+mutual
+theorem toDictFields_first {α} : ∀ (fs : List (Name × Tab α)), wfFields fs →
+    ∀ kv ∈ toDictFields fs, ∃ p ∈ fs, firstComp kv.1 = p.1
+  | [], _ => by intro kv h; simp [toDictFields] at h
+  | (n, t) :: rest, hw => by
+    intro kv h
+    simp only [wfFields] at hw
+    simp only [toDictFields, List.mem_append] at h
+    rcases h with h | h
+    · exact ⟨(n, t), by simp, toDictVal_first n hw.1 t kv h⟩
+    · obtain ⟨p, hp, e⟩ := toDictFields_first rest hw.2.2.2 kv h
+      exact ⟨p, by simp [hp], e⟩
+theorem toDictVal_first {α} (n : Name) (hn : dotFree n) : ∀ (t : Tab α), ∀ kv ∈ toDictVal n t, firstComp kv.1 = n
+  | .col c => by intro kv h; simp [toDictVal] at h; rw [h]; exact firstComp_dotFree n hn
+  | .tab fs => by
+    intro kv h
+    simp only [toDictVal, List.mem_map] at h
+    obtain ⟨kv', _, rfl⟩ := h
+    exact firstComp_join n kv'.1 hn
+end
+
+
+theorem clean_fields {α} (n : Name) (rest : List (Name × Tab α)) (hw : wfFields rest) (hne : ∀ p ∈ rest, p.1 ≠ n) :
+    Clean n (toDictFields rest) := by
+  intro kv hkv
+  obtain ⟨p, hp, e⟩ := toDictFields_first rest hw kv hkv
+  rw [e]; exact hne p hp
+
+theorem clean_append {α} (n : Name) (p q : List (Name × List α)) (hp : Clean n p) (hq : Clean n q) : Clean n (p ++ q) := by
+  intro kv h
+  rcases List.mem_append.mp h with h | h
+  · exact hp kv h
+  · exact hq kv h
+
+mutual
+theorem fromDictFields_spec {α} : ∀ (fs : List (Name × Tab α)), wfFields fs →
+    ∀ (pre post : List (Name × List α)), (∀ p ∈ fs, Clean p.1 pre) → (∀ p ∈ fs, Clean p.1 post) →
+    fromDictFields (schemaFields fs) (pre ++ toDictFields fs ++ post) = some fs
+  | [], _, _, _, _, _ => rfl
+  | (n, t) :: rest, hw, pre, post, hpre, hpost => by
+    simp only [wfFields] at hw
+    obtain ⟨hn, hdist, hwt, hwr⟩ := hw
+    have hv := fromDictVal_spec n hn t hwt pre (toDictFields rest ++ post) (hpre (n, t) (by simp))
+      (clean_append n _ _ (clean_fields n rest hwr hdist) (hpost (n, t) (by simp)))
+    have hr := fromDictFields_spec rest hwr (pre ++ toDictVal n t) post
+      (fun p hp => clean_append p.1 _ _ (hpre p (by simp [hp])) (by
+        intro kv hkv
+        rw [toDictVal_first n hn t kv hkv]
+        exact fun e => hdist p hp e.symm))
+      (fun p hp => hpost p (by simp [hp]))
+    simp only [schemaFields, toDictFields, fromDictFields]
+    have e1 : pre ++ (toDictVal n t ++ toDictFields rest) ++ post = pre ++ toDictVal n t ++ (toDictFields rest ++ post) := by
+      simp [List.append_assoc]
+    have e2 : pre ++ (toDictVal n t ++ toDictFields rest) ++ post = pre ++ toDictVal n t ++ toDictFields rest ++ post := by
+      simp [List.append_assoc]
+    rw [e1, hv, ← e1, e2, hr]
+theorem fromDictVal_spec {α} (n : Name) (hn : dotFree n) : ∀ (t : Tab α), wfVal t →
+    ∀ (pre post : List (Name × List α)), Clean n pre → Clean n post →
+    fromDictVal n (schemaVal t) (pre ++ toDictVal n t ++ post) = some t
+  | .col c, _, pre, post, hpre, _ => by
+    simp only [schemaVal, toDictVal, fromDictVal, plainDict, List.filter_append]
+    rw [List.append_assoc, lookup_clean n hn _ _ (fun kv h => hpre kv (List.mem_filter.mp h).1)]
+    have : dot ∉ n := hn
+    simp [List.filter_cons, this]
+  | .tab fs, hw, pre, post, hpre, hpost => by
+    simp only [wfVal] at hw
+    simp only [schemaVal, toDictVal, fromDictVal]
+    rw [subDict_append, subDict_append, subDict_clean n pre hpre, subDict_clean n post hpost, subDict_join n hn]
+    have := fromDictFields_spec fs hw [] [] (fun _ _ _ h => by simp at h) (fun _ _ _ h => by simp at h)
+    simp only [List.nil_append, List.append_nil] at this ⊢
+    rw [this]; rfl
+end
+
+/-- **`from_dict ∘ todict = id`** for tables with arbitrarily nested table fields: the dotted keys
+`name.sub…` are split back at the first dot, level by level, and every (nested) field gets exactly
+its own columns back — provided field names are dot-free (Python identifiers) and distinct per table. -/
+theorem fromDict_toDict {α} (fs : List (Name × Tab α)) (hw : wfFields fs) :
+    fromDictFields (schemaFields fs) (toDictFields fs) = some fs := by
+  have := fromDictFields_spec fs hw [] [] (fun _ _ _ h => by simp at h) (fun _ _ _ h => by simp at h)
+  simpa using this
+
+/-- a field name containing a dot breaks the round trip (why the hypothesis is needed; `add_fields`
+rejects such names) -/
+theorem fromDict_dotted_name_unsound :
+    fromDictFields (schemaFields [([97, 46, 98], Tab.col [1, 2])]) (toDictFields [([97, 46, 98], Tab.col [1, 2])])
+      = (none : Option (List (Name × Tab Nat))) := by decide
+
+example : wfFields [([97], Tab.col [1, 2]), ([98], Tab.tab [([97], Tab.col [3, 4]), ([99], Tab.col [5, 6])])] := by
+  simp [wfFields, wfVal, dotFree, dot]
+example : toDictFields [([97], Tab.col [1, 2]), ([98], Tab.tab [([97], Tab.col [3, 4]), ([99], Tab.col [5, 6])])]
+    = [([97], [1, 2]), ([98, 46, 97], [3, 4]), ([98, 46, 99], [5, 6])] := by decide
+
 
 end C19
